@@ -149,7 +149,7 @@ def one_history(args):
             var = {"inval": "BOBV_KILL_INVALIDATE", "f29": "BOBV_KILL_PRUNE"}.get(mode, "BOBV_TEAR_SAVE")
             fault = {"inval": "kill-invalidate", "f29": "kill-prune"}.get(mode, "kill-inside-state-write")
             rec["final_rc"] = 0
-            for k in range(1, 9 if mode in ("inval", "f29") else 15):
+            for k in range(1, 9 if mode in ("inval", "f29") else 11):
                 wk = core.scratch_dir("c05k")
                 try:
                     shutil.rmtree(wk); shutil.copytree(w, wk, symlinks=True)
